@@ -44,7 +44,8 @@ class Contract:
         self.entry_assume = kw.pop("entry_assume", None)  # extra assumptions about ghost state at entry (listed as assumptions)
         self.allow_exc = kw.pop("allow_exc", None)
         self.pure = kw.pop("pure", False)  # no heap/ghost effects: generic native replay applies
-        self.replay = kw.pop("replay", None)  # custom native replay driver
+        self.replay = kw.pop("replay", None)
+        self.crash = kw.pop("crash", None)  # crash condition: must hold after every state-mutating call in the body  # custom native replay driver
         if kw:
             raise TypeError(f"unknown contract fields {list(kw)}")
 
